@@ -65,9 +65,9 @@ def gen_atom(rng, rows, depth):
     if r < 0.76:
         body = row["body"]
         words = [w for w in body.replace("\n", " ").split(" ") if w and not (len(w) == 6 and w.isdigit()) and "'" not in w and '"' not in w and "|" not in w and "!" not in w and "[" not in w and "]" not in w and ";" not in w and "\\" not in w]
-        meta = [w for w in body.replace("\n", " ").split(" ") if w and ("_" in w or "%" in w or "\\" in w) and "'" not in w and "|" not in w and "[" not in w]
+        meta = [w for w in body.replace("\n", " ").split(" ") if w and any(ch in w for ch in "_%\\*?[") and "'" not in w and "|" not in w and "[[" not in w and "[#" not in w and "[@" not in w and "!" not in w and ";" not in w and not w[1:7].isdigit()]
         cs = "c" if rng.random() < 0.25 else ""
-        if meta and rng.random() < 0.35:
+        if meta and rng.random() < 0.5:
             w = rng.choice(meta)
             # `\` cannot be written inside a query (SYMBOL is allowed: it includes backslash)
             val = w
